@@ -2,7 +2,9 @@
 # usage: run_all.sh <tier>  -- runs every claimed check in the given tier, prints one summary line per property
 TIER="${1:-quick}"
 cd "$(dirname "$0")"
-for p in $(python3 -c "import json; print(' '.join(c['property_id'] for c in json.load(open('MANIFEST.json'))['checks']))"); do
+# VERIF_PROPS="C09 C11 .." restricts / orders the run; default: every claimed check in MANIFEST order
+PROPS="${VERIF_PROPS:-$(python3 -c "import json; print(' '.join(c['property_id'] for c in json.load(open('MANIFEST.json'))['checks']))")}"
+for p in $PROPS; do
   S=$(date +%s)
   ./check $p --tier $TIER > /tmp/run_all.$p.$TIER.log 2>&1
   RC=$?
